@@ -1325,3 +1325,262 @@ def res_unwrap2(I, st, fr, t, a):
 
 TABLE['std::result::Result::<T, E>::unwrap'] = res_unwrap2
 TABLE['std::result::Result::<T, E>::expect'] = res_unwrap2
+
+
+# ---- closure-driven iterator consumers over modelled iterators
+def _items_for_consumer(I, st, it):
+    items, st = drain(I, st, it)
+    if not all(x[0] == 'elem' for x in items):
+        raise from_undecided()('closure-driven iteration over symbolic items')
+    return [x[1] for x in items], st
+
+
+@summary('std::iter::Iterator::for_each')
+def iter_for_each(I, st, fr, t, a):
+    vals, st = _items_for_consumer(I, st, a[0])
+    for v in vals:
+        r, st = I.call_closure(st, a[1], [v])
+        if st is None:
+            return BOTTOM, None
+    return UNIT, st
+
+
+def _any_all(is_any):
+    def h(I, st, fr, t, a):
+        r0 = a[0]
+        it = I.read_at(st, r0.cell, r0.path) if isinstance(r0, Ref) else r0
+        vals, st = _items_for_consumer(I, st, it)
+        acc = C0 if is_any else C1
+        before = dict(st.store)
+        for v in vals:
+            r, st = I.call_closure(st, a[1], [v])
+            if st is None:
+                return BOTTOM, None
+            acc = B.bor(acc, r.bits[0]) if is_any else B.band(acc, r.bits[0])
+        changed = [c for c, v in st.store.items() if c in before and before[c] is not v and c[0] != 'static']
+        if changed:
+            raise from_undecided()('short-circuiting iterator predicate with side effects')
+        return boolv(acc), st
+    return h
+
+
+TABLE['std::iter::Iterator::any'] = _any_all(True)
+TABLE['std::iter::Iterator::all'] = _any_all(False)
+
+
+@summary('std::iter::Iterator::fold')
+def iter_fold(I, st, fr, t, a):
+    vals, st = _items_for_consumer(I, st, a[0])
+    acc = a[1]
+    for v in vals:
+        acc, st = I.call_closure(st, a[2], [acc, v])
+        if st is None:
+            return BOTTOM, None
+    return acc, st
+
+
+@summary('std::option::Option::<T>::unwrap_or')
+def opt_unwrap_or(I, st, fr, t, a):
+    return opt_split(I, st, a[0], lambda s, x: (x, s), lambda s: (a[1], s))
+
+
+@summary('std::option::Option::<T>::unwrap_or_else')
+def opt_unwrap_or_else(I, st, fr, t, a):
+    return opt_split(I, st, a[0], lambda s, x: (x, s), lambda s: I.call_closure(s, a[1], []))
+
+
+@summary('std::option::Option::<T>::is_some_and')
+def opt_is_some_and(I, st, fr, t, a):
+    return opt_split(I, st, a[0], lambda s, x: I.call_closure(s, a[1], [x]), lambda s: (FALSE, s))
+
+
+@summary('std::option::Option::<T>::filter')
+def opt_filter(I, st, fr, t, a):
+    ty = ret_ty(I, fr, t) or OPT
+
+    def on_some(s, x):
+        cell = ('static', 'optf:%d' % next(I.frame_counter))
+        s.store[cell] = x
+        r, s2 = I.call_closure(s, a[1], [Ref(cell)])
+        return I.merge(r.bits[0], some(x, ty), none(ty)), s2
+    return opt_split(I, st, a[0], on_some, lambda s: (none(ty), s))
+
+
+@summary('std::option::Option::<T>::or')
+def opt_or(I, st, fr, t, a):
+    ty = ret_ty(I, fr, t) or OPT
+    return opt_split(I, st, a[0], lambda s, x: (some(x, ty), s), lambda s: (a[1], s))
+
+
+@summary('std::option::Option::<T>::ok_or', 'std::option::Option::<T>::ok_or_else')
+def opt_ok_or(I, st, fr, t, a):
+    ty = ret_ty(I, fr, t) or 'std::result::Result'
+    return opt_split(I, st, a[0], lambda s, x: (Enum(ty, 0, (x,)), s), lambda s: (Enum(ty, 1, (Top('err'),)), s))
+
+
+@summary('std::mem::swap', 'core::mem::swap')
+def mem_swap(I, st, fr, t, a):
+    x, y = a[0], a[1]
+    vx, vy = I.read_at(st, x.cell, x.path), I.read_at(st, y.cell, y.path)
+    st.store[x.cell] = I.update(st.store[x.cell], x.path, vy)
+    st.store[y.cell] = I.update(st.store[y.cell], y.path, vx)
+    return UNIT, st
+
+
+@summary('std::mem::replace', 'core::mem::replace')
+def mem_replace(I, st, fr, t, a):
+    x = a[0]
+    old = I.read_at(st, x.cell, x.path)
+    st.store[x.cell] = I.update(st.store[x.cell], x.path, a[1])
+    return old, st
+
+
+@summary('std::mem::take', 'core::mem::take')
+def mem_take(I, st, fr, t, a):
+    x = a[0]
+    old = I.read_at(st, x.cell, x.path)
+    if isinstance(old, Enum) or isinstance(old, Ite):
+        new = none(getattr(old, 'ty', OPT))
+    elif isinstance(old, BV):
+        new = BV.const(0, old.w)
+    elif isinstance(old, Seq):
+        new = Seq(())
+    else:
+        raise from_undecided()('mem::take of %r' % (old,))
+    st.store[x.cell] = I.update(st.store[x.cell], x.path, new)
+    return old, st
+
+
+@summary('std::vec::Vec::<T, A>::extend_from_slice')
+def vec_extend_from_slice(I, st, fr, t, a):
+    r = a[0]
+    v = I.read_at(st, r.cell, r.path)
+    src = I.deref(st, a[1])
+    if not (isinstance(v, Seq) and isinstance(src, Seq)):
+        raise from_undecided()('extend_from_slice')
+    st.store[r.cell] = I.update(st.store[r.cell], r.path, Seq(v.items + src.items))
+    return UNIT, st
+
+
+@summary('std::vec::Vec::<T, A>::append')
+def vec_append(I, st, fr, t, a):
+    r, o = a[0], a[1]
+    v = I.read_at(st, r.cell, r.path)
+    w = I.read_at(st, o.cell, o.path)
+    if not (isinstance(v, Seq) and isinstance(w, Seq)):
+        raise from_undecided()('Vec::append')
+    st.store[r.cell] = I.update(st.store[r.cell], r.path, Seq(v.items + w.items))
+    st.store[o.cell] = I.update(st.store[o.cell], o.path, Seq(()))
+    return UNIT, st
+
+
+@summary('core::slice::<impl [T]>::to_vec', 'std::slice::<impl [T]>::to_vec')
+def slice_to_vec(I, st, fr, t, a):
+    v = I.deref(st, a[0])
+    return v, st
+
+
+@summary('core::num::<impl u64>::wrapping_add', 'core::num::<impl usize>::wrapping_add', 'core::num::<impl usize>::saturating_add',
+         'core::num::<impl u64>::saturating_add')
+def wrapping_add(I, st, fr, t, a):
+    return I.binop('Add', a[0], a[1]), st
+
+
+@summary('core::num::<impl u64>::leading_zeros', 'core::num::<impl u32>::leading_zeros', 'core::num::<impl usize>::leading_zeros')
+def leading_zeros(I, st, fr, t, a):
+    v = a[0]
+    if isinstance(v, BV) and v.known():
+        x = v.uval()
+        return BV.const(v.w - x.bit_length(), 32), st
+    return Term('lz', (v,), 32, 0, getattr(v, 'w', 64)), st
+
+
+@summary('core::num::<impl u64>::is_power_of_two')
+def is_pow2(I, st, fr, t, a):
+    v = a[0]
+    if isinstance(v, BV) and v.known():
+        x = v.uval()
+        return (TRUE if x and not (x & (x - 1)) else FALSE), st
+    return boolv(B.atom_bit(B.atom('pow2', repr(v), payload=v, deps=I.deps_of(v)))), st
+
+
+# ---- byte views of integers
+def _to_bytes(le):
+    def h(I, st, fr, t, a):
+        v = a[0]
+        if not isinstance(v, BV):
+            raise from_undecided()('to_bytes of %r' % (v,))
+        chunks = [BV(v.bits[i:i + 8]) for i in range(0, v.w, 8)]
+        if not le:
+            chunks.reverse()
+        return Seq([('elem', c) for c in chunks]), st
+    return h
+
+
+for _ty in ('u64', 'u32', 'u16', 'u128', 'usize'):
+    TABLE['core::num::<impl %s>::to_le_bytes' % _ty] = _to_bytes(True)
+    TABLE['core::num::<impl %s>::to_be_bytes' % _ty] = _to_bytes(False)
+    TABLE['core::num::<impl %s>::to_ne_bytes' % _ty] = _to_bytes(True)
+
+
+def _from_bytes(le):
+    def h(I, st, fr, t, a):
+        v = a[0]
+        if not (isinstance(v, Seq) and v.concrete() and all(isinstance(x[1], BV) for x in v.items)):
+            raise from_undecided()('from_bytes of %r' % (v,))
+        chunks = [x[1] for x in v.items]
+        if not le:
+            chunks = list(reversed(chunks))
+        out = ()
+        for c in chunks:
+            out += c.bits
+        return BV(out), st
+    return h
+
+
+for _ty in ('u64', 'u32', 'u16', 'u128', 'usize'):
+    TABLE['core::num::<impl %s>::from_le_bytes' % _ty] = _from_bytes(True)
+    TABLE['core::num::<impl %s>::from_be_bytes' % _ty] = _from_bytes(False)
+
+
+# ---- more lazy adapters over modelled iterators
+TABLE['std::iter::Iterator::rev'] = lazy_adapter('$Rev')
+TABLE['std::iter::Iterator::chain'] = lazy_adapter('$Chain')
+TABLE['std::iter::Iterator::skip'] = lazy_adapter('$Skip')
+TABLE['std::iter::Iterator::take'] = lazy_adapter('$Take')
+TABLE['std::iter::Iterator::copied'] = lazy_adapter('$Cloned')
+
+_old_drain = drain
+
+
+def drain2(I, st, it):
+    if isinstance(it, Struct) and it.ty == '$Rev':
+        items, st = drain2(I, st, it.fields[0])
+        return list(reversed(items)), st
+    if isinstance(it, Struct) and it.ty == '$Chain':
+        a_, st = drain2(I, st, it.fields[0])
+        b_, st = drain2(I, st, it.fields[1])
+        return a_ + b_, st
+    if isinstance(it, Struct) and it.ty in ('$Skip', '$Take'):
+        items, st = drain2(I, st, it.fields[0])
+        n = it.fields[1]
+        if not (isinstance(n, BV) and n.known()) or not all(x[0] == 'elem' for x in items):
+            raise from_undecided()('skip/take with symbolic count or items')
+        k = n.uval()
+        return (items[k:] if it.ty == '$Skip' else items[:k]), st
+    if isinstance(it, Struct) and it.ty in ('$Cloned', '$Map', '$Filter'):
+        # re-implement the recursive cases on top of drain2 so that nested adapters compose
+        inner = it.fields[0]
+        if isinstance(inner, Struct) and inner.ty in ('$Rev', '$Chain', '$Skip', '$Take'):
+            items, st = drain2(I, st, inner)
+            cell = ('static', 'drained:%d' % next(I.frame_counter))
+            st.store[cell] = Seq(items)
+            flat = Struct('$SliceIter', (Ref(cell), 0, 'owned'))
+            return _old_drain(I, st, Struct(it.ty, (flat,) + tuple(it.fields[1:])))
+    return _old_drain(I, st, it)
+
+
+drain = drain2
+import sys as _sys
+_mod = _sys.modules[__name__]
+_mod.drain = drain2
